@@ -54,29 +54,65 @@ func runC15(c *Ctx) {
 	}
 	c.floor("C15.1", "os.Rename publish sites in internal/llmsetup", len(pubs), 1)
 
+	phaseHelpers := map[*ssa.Function]bool{} // first/last-phase helpers of a publishing function: their parameters are read at the call site
 	stepHelpers := map[*ssa.Function]int{} // helper -> index of the parameter that is the temporary file
 	var tempNames []ssa.Value              // resolved src values (temp file names)
 	var targetDirs []ssa.Value
 	var tempFiles []ssa.Value
 
 	for _, p := range pubs {
-		fn, rn := p.fn, p.rn
-		name := fnName(fn)
-		c.seen(name)
+		rnFn, rn := p.fn, p.rn
+		c.seen(fnName(rnFn))
 		rnCall := rn.value()
 		if rnCall == nil {
-			c.undecided("C15.1", name+":Rename", "os.Rename is deferred or spawned, not called")
+			c.undecided("C15.1", fnName(rnFn)+":Rename", "os.Rename is deferred or spawned, not called")
 			continue
 		}
-		src, dst := rn.arg(0), rn.arg(1)
+		// the rename may live in a last-phase helper (publishTemp(tmpName, finalPath)) of the function that creates the
+		// temporary file: the checks below then run in that function, with the helper's call as the publishing step
+		fn, rnSite, src, dst := publishRoot(L, rnFn, rn)
+		var rnAt ssa.Instruction = rn.instr
+		if fn != rnFn {
+			rnAt = rnSite.instr
+			phaseHelpers[rnFn] = true
+			c.seen(fnName(fn))
+			// the helper reports success only after the rename succeeded
+			for _, r := range returnsOf(rnFn) {
+				if returnsNilError(r) {
+					ok, why := checkedBefore(rnCall, r)
+					c.check(ok, "C15.1", fnName(rnFn)+":Rename-before-success-return", L.pos(r.Pos()), fnName(rnFn)+": returns nil only after the rename succeeded", why)
+				}
+			}
+		}
+		name := fnName(fn)
 
 		// C15.1a: src is Name() of the file returned by CreateTemp
 		nameCall := callResultOf(src, "(*os.File).Name", 0)
 		var tmpFile ssa.Value
-		var ct *ssa.Call
+		var ct, ctSite *ssa.Call
 		if nameCall != nil {
 			tmpFile = resolve(nameCall.Common().Args[0])
 			ct = callResultOf(tmpFile, "os.CreateTemp", 0)
+			ctSite = ct
+			if ct == nil {
+				// first-phase helper: tmp, err := createTempIn(dir) returning the os.CreateTemp file on its success returns
+				ct, ctSite = createTempThroughHelper(tmpFile)
+				if ct != nil {
+					phaseHelpers[ct.Parent()] = true
+					c.seen(fnName(ct.Parent()))
+					for _, r := range returnsOf(ct.Parent()) {
+						if returnsNilError(r) {
+							ok, why := checkedBefore(ct, r)
+							c.check(ok, "C15.1", fnName(ct.Parent())+":CreateTemp-before-success-return", L.pos(r.Pos()), fnName(ct.Parent())+": returns the file only after os.CreateTemp succeeded", why)
+						}
+					}
+					if ok, why := errorBranchReturnsNonNil(ct); ok {
+						c.ok("C15.5", fnName(ct.Parent())+": failure of os.CreateTemp is reported", why)
+					} else {
+						c.fail("C15.5", fnName(ct.Parent())+":os.CreateTemp-error-reported", L.pos(ct.Pos()), "a failing os.CreateTemp does not make the function return a non-nil error", why)
+					}
+				}
+			}
 		}
 		if ct == nil {
 			c.fail("C15.1", name+":Rename.src", L.pos(rn.instr.Pos()), "the rename source is not the Name() of a file created by os.CreateTemp in this function", "source is "+describe(src))
@@ -85,7 +121,7 @@ func runC15(c *Ctx) {
 		c.ok("C15.1", name+": rename source is Name() of the os.CreateTemp file", "value chain Rename.arg0 <- (*os.File).Name <- os.CreateTemp#0")
 		tempNames = append(tempNames, resolve(src))
 		tempFiles = append(tempFiles, tmpFile)
-		targetDirs = append(targetDirs, resolve(ct.Common().Args[0]))
+		targetDirs = append(targetDirs, liftPhase(L, phaseHelpers, ct.Common().Args[0]))
 
 		// C15.1b: Write, Sync, Close on that file and Chmod on that name: each dominates the rename with its error checked
 		type step struct {
@@ -109,12 +145,34 @@ func runC15(c *Ctx) {
 				if !st.onFile && resolve(cs.arg(0)) != resolve(src) {
 					continue
 				}
-				ok, w := checkedBefore(call, rn.instr)
+				ok, w := checkedBefore(call, rnAt)
 				if ok {
 					best, why = call, w
 					break
 				}
 				why = w
+			}
+			// the step may sit in the publishing helper itself, in front of the rename
+			if best == nil && fn != rnFn {
+				for _, cs := range findCalls(rnFn, st.callee) {
+					call := cs.value()
+					if call == nil {
+						continue
+					}
+					want := resolve(src)
+					if st.onFile {
+						want = tmpFile
+					}
+					if liftPhase(L, phaseHelpers, cs.arg(0)) != want {
+						continue
+					}
+					if ok, w := checkedBefore(call, rn.instr); ok {
+						best, why = call, "inside "+rnFn.Name()+": "+w
+						break
+					} else {
+						why = w
+					}
+				}
 			}
 			// the step may live in a private helper that receives the temporary file: the helper performs it (checked, before
 			// each of its success returns) and the helper's own error is checked before the rename
@@ -151,7 +209,7 @@ func runC15(c *Ctx) {
 						if !okAll {
 							continue
 						}
-						if ok, w := checkedBefore(hc.value(), rn.instr); ok {
+						if ok, w := checkedBefore(hc.value(), rnAt); ok {
 							best, why = hc.value(), "through "+h.Name()+" (step checked before each of its success returns; "+w+")"
 							helperSteps[st.callee] = sc.value()
 							stepHelpers[h] = pidx
@@ -164,7 +222,7 @@ func runC15(c *Ctx) {
 				if why == "" {
 					why = "no such call on the temporary file in this function"
 				}
-				c.fail("C15.1", construct, L.pos(rn.instr.Pos()), fmt.Sprintf("%s with a checked error does not precede os.Rename on every path", st.callee), why)
+				c.fail("C15.1", construct, L.pos(rnAt.Pos()), fmt.Sprintf("%s with a checked error does not precede os.Rename on every path", st.callee), why)
 				continue
 			}
 			found[st.callee] = best
@@ -185,13 +243,22 @@ func runC15(c *Ctx) {
 			if a == b && helperSteps[order[i]] != nil && helperSteps[order[i+1]] != nil {
 				a, b = helperSteps[order[i]], helperSteps[order[i+1]] // both inside the same helper: order them there
 			}
+			if a.Parent() != b.Parent() {
+				// one of them sits in the publishing helper: order its call in fn
+				if a.Parent() == rnFn && fn != rnFn {
+					a = rnSite.value()
+				}
+				if b.Parent() == rnFn && fn != rnFn {
+					b = rnSite.value()
+				}
+			}
 			c.check(instrDominates(a, b), "C15.1", fmt.Sprintf("%s:%s-before-%s", name, order[i], order[i+1]), L.pos(b.Pos()),
 				fmt.Sprintf("%s: %s precedes %s", name, order[i], order[i+1]), fmt.Sprintf("block %d dominates block %d", a.Block().Index, b.Block().Index))
 		}
 		// no content mutation of the temp file after Sync
 		if sy := found["(*os.File).Sync"]; sy != nil {
 			for _, cs := range callsIn(fn) {
-				if fileMutatorMethods[cs.callee] && resolve(cs.arg(0)) == tmpFile && cs.value() != nil && reachableAfter(sy, cs.instr) {
+				if fileMutatorMethods[cs.callee] && resolve(cs.arg(0)) == tmpFile && cs.value() != nil && sy.Parent() == fn && reachableAfter(sy, cs.instr) {
 					c.fail("C15.1", name+":write-after-Sync", L.pos(cs.instr.Pos()), cs.callee+" on the temporary file can execute after Sync (unsynced content would be published)")
 				}
 			}
@@ -203,12 +270,12 @@ func runC15(c *Ctx) {
 			c.check(ok && mode == 0o644, "C15.1", name+":Chmod.mode", L.pos(ch.Pos()), name+": final permissions 0644 are set on the temporary file before it is published", fmt.Sprintf("constant mode %#o", mode))
 		}
 		// CreateTemp itself checked before everything
-		if ok, why := checkedBefore(ct, rn.instr); ok {
+		if ok, why := checkedBefore(ctSite, rnAt); ok {
 			c.ok("C15.1", name+": CreateTemp error checked before use", why)
 		} else {
-			c.fail("C15.1", name+":CreateTemp-checked", L.pos(ct.Pos()), "os.CreateTemp's error is not checked before the rename", why)
+			c.fail("C15.1", name+":CreateTemp-checked", L.pos(ctSite.Pos()), "os.CreateTemp's error is not checked before the rename", why)
 		}
-		if ok, why := errorBranchReturnsNonNil(ct); ok {
+		if ok, why := errorBranchReturnsNonNil(ctSite); ok {
 			c.ok("C15.5", name+": failure of os.CreateTemp is reported", why)
 		} else {
 			c.fail("C15.5", name+":os.CreateTemp-error-reported", L.pos(ct.Pos()), "a failing os.CreateTemp does not make the function return a non-nil error", why)
@@ -225,7 +292,7 @@ func runC15(c *Ctx) {
 		if !ok || len(elems) != 2 {
 			c.fail("C15.2", name+":Rename.dst", L.pos(rn.instr.Pos()), "the rename destination is not filepath.Join(<temp dir>, <file name>)", "destination is "+describe(dst))
 		} else {
-			c.check(sameValue(elems[0], ct.Common().Args[0]), "C15.2", name+":same-directory", L.pos(ct.Pos()),
+			c.check(sameValue(elems[0], liftPhase(L, phaseHelpers, ct.Common().Args[0])), "C15.2", name+":same-directory", L.pos(ct.Pos()),
 				name+": temporary file is created in the directory of the destination (rename stays inside one directory)",
 				"CreateTemp.dir and Join.elem0 are the same SSA value: "+describe(elems[0]))
 			// the base name must be a bare file name: parameter whose every actual is filepath.Base(...)
@@ -263,7 +330,7 @@ func runC15(c *Ctx) {
 		}
 
 		// C15.4 deferred cleanup
-		c15Defer(c, fn, ct, resolve(src), tmpFile)
+		c15Defer(c, fn, ctSite, resolve(src), tmpFile)
 	}
 
 	// C15.3 single writer of the final name: every mutator call in the package takes the target dir, the temp name,
@@ -276,7 +343,7 @@ func runC15(c *Ctx) {
 					nMut++
 					okFile := false
 					for _, tf := range tempFiles {
-						if resolve(cs.arg(0)) == tf {
+						if liftPhase(L, phaseHelpers, cs.arg(0)) == tf {
 							okFile = true
 						}
 					}
@@ -309,7 +376,7 @@ func runC15(c *Ctx) {
 					if cs.callee == "os.Rename" && i == 1 {
 						continue // the one publishing write
 					}
-					a := resolve(cs.arg(i))
+					a := liftPhase(L, phaseHelpers, cs.arg(i))
 					allowed := ""
 					for _, t := range tempNames {
 						if a == t {
@@ -382,7 +449,13 @@ func c15Defer(c *Ctx, fn *ssa.Function, ct *ssa.Call, src ssa.Value, tmpFile ssa
 	ev := errorResult(ct)
 	var onNil *ssa.BasicBlock
 	for _, t := range nilTestsOf(ev) {
-		onNil = t.onNil
+		// the test in this function (a returned error also reaches the named result, which the deferred closure tests)
+		if t.ifInstr.Parent() != fn {
+			continue
+		}
+		if onNil == nil || t.ifInstr.Block().Dominates(onNil) {
+			onNil = t.onNil
+		}
 	}
 	if onNil == nil {
 		c.undecided("C15.4", name+":defer-position", "cannot find the success edge of os.CreateTemp")
@@ -534,7 +607,7 @@ func c15Propagation(c *Ctx, fns []*ssa.Function, _ int) {
 					checked++
 					if ok, why := errorBranchReturnsNonNil(call); ok {
 						c.ok("C15.5", fmt.Sprintf("%s: error of %s is returned", fnName(f2), cs.callee), why)
-					} else if returnsCallDirectly(call) {
+					} else if returnsCallDirectly(call) || returnedViaNamedResult(call) {
 						c.ok("C15.5", fmt.Sprintf("%s: result of %s is returned directly", fnName(f2), cs.callee), "return operand is the call")
 					} else {
 						c.fail("C15.5", cons, L.pos(cs.instr.Pos()), fmt.Sprintf("the error of %s is not passed on by %s", cs.callee, fnName(f2)), why)
@@ -650,6 +723,50 @@ func c15Main(c *Ctx, rule string) {
 			}
 		}
 	}
+	if !okExit {
+		// main() { if code := run(...); code != 0 { os.Exit(code) } }: the helper turns the error into a non-zero code
+		for _, h := range family(L, mainFn) {
+			if h == mainFn || h.Parent() != nil {
+				continue
+			}
+			for _, cs := range callsIn(h) {
+				if cs.callee != cfgPkg+".Run" || cs.value() == nil {
+					continue
+				}
+				if okCode, _ := errorEdgeReturnsNonZeroCode(cs.value()); !okCode {
+					continue
+				}
+				for _, mc := range callsIn(mainFn) {
+					if cal := mc.common.StaticCallee(); cal == nil || cal != h || mc.value() == nil {
+						continue
+					}
+					code := mc.value()
+					for _, ex := range findCalls(mainFn, "os.Exit") {
+						if resolve(ex.arg(0)) != ssa.Value(code) {
+							continue
+						}
+						// the exit is reached whenever the code is not zero: its only guards are `code != 0`
+						guarded := true
+						for _, iff := range controllingIfs(ex.instr) {
+							bo, isB := iff.Cond.(*ssa.BinOp)
+							if !isB || bo.Op != token.NEQ || resolve(bo.X) != ssa.Value(code) {
+								guarded = false
+								continue
+							}
+							if z, isC := constInt(bo.Y); !isC || z != 0 || !(iff.Block().Succs[0] == ex.instr.Block() || iff.Block().Succs[0].Dominates(ex.instr.Block())) {
+								guarded = false
+							}
+						}
+						if guarded {
+							okExit = true
+							why = fmt.Sprintf("%s returns a non-zero code on the error edge of config.Run; main exits with that code whenever it is not zero", fnName(h))
+							c.seen(fnName(h))
+						}
+					}
+				}
+			}
+		}
+	}
 	c.check(okExit, rule, "cmd/kessoku.main:exit-status", L.pos(mainFn.Pos()), "main exits with a non-zero status when the command returns an error", why)
 
 	runFn := L.fn(cfgPkg, "Run")
@@ -728,4 +845,174 @@ func returnFedBy(v ssa.Value, use ssa.Instruction, idx int) *ssa.Return {
 		}
 	}
 	return nil
+}
+
+// errorEdgeReturnsNonZeroCode: the caller of `call` has a single int result, and every return reachable from the
+// error edge of the call's error test returns a non-zero constant (an exit code).
+func errorEdgeReturnsNonZeroCode(call *ssa.Call) (bool, string) {
+	fn := call.Parent()
+	res := fn.Signature.Results()
+	if res.Len() != 1 || res.At(0).Type().String() != "int" {
+		return false, "the caller does not return an exit code"
+	}
+	ev := errorResult(call)
+	if ev == nil {
+		return false, "no error result kept"
+	}
+	tests := nilTestsOf(ev)
+	if len(tests) == 0 {
+		return false, "error never tested"
+	}
+	for _, t := range tests {
+		seen := map[*ssa.BasicBlock]bool{}
+		n := 0
+		var walk func(b *ssa.BasicBlock) bool
+		walk = func(b *ssa.BasicBlock) bool {
+			if seen[b] {
+				return true
+			}
+			seen[b] = true
+			if len(b.Instrs) > 0 {
+				if r, ok := b.Instrs[len(b.Instrs)-1].(*ssa.Return); ok {
+					n++
+					k, isC := constInt(r.Results[0])
+					return isC && k != 0
+				}
+			}
+			for _, s := range b.Succs {
+				if !walk(s) {
+					return false
+				}
+			}
+			return true
+		}
+		if !walk(t.onErr) || n == 0 {
+			return false, fmt.Sprintf("a return reachable from the error edge (block %d) does not return a non-zero constant", t.onErr.Index)
+		}
+	}
+	return true, "every return on the error edge returns a non-zero exit code"
+}
+
+// llmCallSites: the static call sites of fn in internal/llmsetup (closures included).
+func llmCallSites(L *Loaded, fn *ssa.Function) []callSite {
+	var out []callSite
+	for _, g := range llmFuncs(L) {
+		for _, cs := range callsIn(g) {
+			if cal := cs.common.StaticCallee(); cal != nil && originOf(cal) == fn {
+				out = append(out, cs)
+			}
+		}
+	}
+	return out
+}
+
+// publishRoot: the function in which the published temporary file is created. When the rename's source is a parameter of
+// its function and that function has one call site, the caller is the publishing function and the call is its publishing
+// step; returns that function, the call, and the rename's source and destination as values of that function.
+func publishRoot(L *Loaded, rnFn *ssa.Function, rn callSite) (*ssa.Function, callSite, ssa.Value, ssa.Value) {
+	fn, site, src, dst := rnFn, rn, rn.arg(0), rn.arg(1)
+	for depth := 0; depth < 2; depth++ {
+		p, isP := resolve(src).(*ssa.Parameter)
+		if !isP || p.Parent() != fn {
+			break
+		}
+		sites := llmCallSites(L, fn)
+		if len(sites) != 1 || sites[0].value() == nil {
+			break
+		}
+		up := sites[0]
+		src = up.arg(paramIndex(fn, p))
+		if q, isQ := resolve(dst).(*ssa.Parameter); isQ && q.Parent() == fn {
+			dst = up.arg(paramIndex(fn, q))
+		}
+		fn, site = up.fn, up
+	}
+	return fn, site, src, dst
+}
+
+// createTempThroughHelper: v is result #i of a call to a package helper whose success returns all yield, at #i, the file of
+// one os.CreateTemp call. Returns that inner call and the helper's call.
+func createTempThroughHelper(v ssa.Value) (*ssa.Call, *ssa.Call) {
+	ex, ok := resolve(v).(*ssa.Extract)
+	if !ok {
+		return nil, nil
+	}
+	hc, ok := ex.Tuple.(*ssa.Call)
+	if !ok {
+		return nil, nil
+	}
+	h := hc.Common().StaticCallee()
+	if h == nil || len(h.Blocks) == 0 || h.Pkg != hc.Parent().Pkg || errorResultIndex(h) < 0 {
+		return nil, nil
+	}
+	var ct *ssa.Call
+	for _, r := range returnsOf(h) {
+		if !returnsNilError(r) || ex.Index >= len(r.Results) {
+			continue
+		}
+		c := callResultOf(r.Results[ex.Index], "os.CreateTemp", 0)
+		if c == nil || (ct != nil && c != ct) {
+			return nil, nil
+		}
+		ct = c
+	}
+	return ct, hc
+}
+
+// liftPhase: a parameter of a phase helper is read as the argument at the helper's only call site.
+func liftPhase(L *Loaded, helpers map[*ssa.Function]bool, v ssa.Value) ssa.Value {
+	v = resolve(v)
+	for depth := 0; depth < 2; depth++ {
+		p, isP := v.(*ssa.Parameter)
+		if !isP || !helpers[p.Parent()] {
+			break
+		}
+		sites := llmCallSites(L, p.Parent())
+		if len(sites) != 1 {
+			break
+		}
+		v = resolve(sites[0].arg(paramIndex(p.Parent(), p)))
+	}
+	return v
+}
+
+// returnedViaNamedResult: `return f()` in a function with a named error result and deferred calls: the call's error is
+// stored into the result variable and the block returns (after running the deferred calls) what that variable holds.
+func returnedViaNamedResult(call *ssa.Call) bool {
+	if call.Referrers() == nil {
+		return false
+	}
+	for _, r := range *call.Referrers() {
+		st, ok := r.(*ssa.Store)
+		if !ok || st.Val != ssa.Value(call) {
+			continue
+		}
+		al := allocOf(st.Addr)
+		if al == nil {
+			continue
+		}
+		after := false
+		for _, in := range st.Block().Instrs {
+			if in == ssa.Instruction(st) {
+				after = true
+				continue
+			}
+			if !after {
+				continue
+			}
+			switch x := in.(type) {
+			case *ssa.RunDefers, *ssa.UnOp, *ssa.DebugRef:
+			case *ssa.Return:
+				if len(x.Results) > 0 {
+					if ld, ok := x.Results[len(x.Results)-1].(*ssa.UnOp); ok && ld.Op == token.MUL && allocOf(ld.X) == al {
+						return true
+					}
+				}
+				return false
+			default:
+				return false
+			}
+		}
+	}
+	return false
 }
